@@ -8,8 +8,9 @@
    domain) - resolved by arbitrary "coins" over which every theorem quantifies.  Requests of a
    history are TakeTokens with any key list and amount n >= 0, GetBucketState, SetBucketState,
    ResetRateBuckets and SetDefaultBucketState at arbitrary points.
-   Domain: 0 <= P <= 2^62 ns (above: finding F18); the bucket's interval is max 1 (P/N) ns (lim_ok,
-   fresh_cfg; P < N is clamped to 1 ns since 7348cd5bb, taken > N means empty since 4e20ebf0e); non-decreasing clock
+   Domain: P <= MaxInt64 - 2 ns; the bucket's interval is max 1 (P/N) ns (lim_ok, fresh_cfg; P < N,
+   P = 0 and negative P are clamped to 1 ns since 7348cd5bb / e448004d7, taken > N means empty since
+   4e20ebf0e); non-decreasing clock
    (timeline); amounts n >= 0 (nonneg_in).  Float rounding itself is bridged by measurement
    (Model.agrees / tr_xdiff), not by a theorem: hence `_partial` in the manifest wording. *)
 From Coq Require Import List NArith ZArith Lia Floats.
@@ -25,6 +26,14 @@ Proof. reflexivity. Qed.
 Lemma reset_clamps_sub_ns_interval : rates_sub_ns_interval_clamped = true.   (* 7348cd5bb *)
 Proof. reflexivity. Qed.
 Lemma reset_caps_taken_at_count : rates_taken_capped_at_count = true.      (* 4e20ebf0e *)
+Proof. reflexivity. Qed.
+Lemma reset_clamps_negative_interval : rates_negative_interval_clamped = true. (* e448004d7 *)
+Proof. reflexivity. Qed.
+Lemma reset_fills_the_new_bucket : rates_new_bucket_full = true.             (* ca6594b47 *)
+Proof. reflexivity. Qed.
+Lemma wait_saturates_at_inf_duration : rates_wait_saturates = true.          (* ca6594b47 *)
+Proof. reflexivity. Qed.
+Lemma taken_tokens_are_rounded_up : rates_taken_rounded_up = true.           (* d872ef03d *)
 Proof. reflexivity. Qed.
 Lemma modelled_rules_present :
   (rates_inf_is_max_float64 && rates_admit_rule_is_burst_and_no_wait && rates_tokens_capped_at_burst
@@ -42,7 +51,7 @@ Theorem window_bound : forall s k l h t0 t1,
 Proof. exact window_bound_proved. Qed.
 
 (* 2. A bucket set (SetBucketState / reset) to any configuration of N >= 1 operations per period
-   0 <= P <= 2^62 ns with any number taken holds fresh_tokens = max 0 (N - taken) tokens: it admits
+   P <= MaxInt64 - 2 ns (zero and negative included) with any number taken holds fresh_tokens = max 0 (N - taken) tokens: it admits
    exactly that many single operations at that instant and refuses the next, whatever the coins;
    likewise a bucket created from its limit's default state by its first request.  This includes
    P < N (interval clamped to 1 ns) and taken > N (empty bucket). *)
@@ -58,7 +67,8 @@ Theorem first_use_admits_exactly_N : forall s t k st cs,
   take_seq s t k cs = repeat true (Z.to_nat (fresh_tokens st)) ++ [false].
 Proof. exact first_use_admits_exactly_N_proved. Qed.
 
-(* 2b. A declared rate above one operation per nanosecond (0 <= P < N) is served by a genuine
+(* 2b. A declared rate above one operation per nanosecond, or no rate at all (P < N: also P = 0
+   and a negative P, which is what a period too long for time.Duration used to wrap to) is served by a genuine
    bucket of burst N refilled at 1 token per ns (xI = 1).  Hence, by window_bound / idle_cap with
    I = 1: at most N at one instant, at most N + T + 1 in a window of T ns - never more than the
    declared N + T*N/P, but the long-run rate is capped at 10^9 operations per second, below the
@@ -152,15 +162,28 @@ Theorem refused_request_consumes_nothing : forall ls q s t coins exc s' k l,
   exists l', has_bucket s' k l' /\ lim_equiv t l' l.
 Proof. exact refused_request_consumes_nothing_proved. Qed.
 
-(* ---- the float replica F: F18.  Stated for F the fresh-bucket clause reads
-     forall st t, 1 <= bs_max st -> 1 <= bs_period st / bs_max st -> maxd <= t ->
-       a new bucket admits bs_max st single operations at t
-   and is refuted at P = MaxInt64 ns: the bucket is created with 0.99999999999999989 tokens and
-   refuses the first request (finding F18; the domain P <= 2^62 of the theorems excludes it). *)
-Theorem fresh_admits_float_refuted : exists st t,
+(* 9. GetBucketState reports the taken tokens rounded up, so writing the reported state back
+   (SetBucketState leaves N - taken tokens, theorem 2) never leaves more than the credit the
+   bucket holds: a round trip cannot mint capacity (it may lose a fraction of a token). *)
+Theorem round_trip_never_mints : forall l t,
+  xk l = XNorm -> lim_ok l -> xlast l <= t -> xburst l + 1 <= max_u32 ->
+  (xburst l - x_taken l t) * xI l <= pot l t.
+Proof. exact round_trip_never_mints_proved. Qed.
+
+(* ---- the float replica F before ca6594b47 (F18, fixed).  With the limiter starting at tokens = 0
+   and the zero time (full := false) a bucket of 1 per MaxInt64 ns was created with
+   0.99999999999999989 tokens and refused the first request; with the plain float -> Duration
+   conversion (sat := false) the wait for one token at that rate, 2^63 ns, came out as MinInt64, a
+   "wait" that admits.  The repaired shapes admit exactly one and wait for ever. *)
+Theorem fresh_admits_float_refuted_before_ca6594b47 : exists st t,
   1 <= bs_max st /\ 1 <= Z.quot (bs_period st) (bs_max st) /\ bs_taken st = 0 /\ maxd <= t /\
-  f_takes (f_new st t) t 1 = [false].
+  f_takes_gen false (f_new_gen true true true false false st t) t 1 = [false] /\
+  f_dur_from_tokens_gen false (f_every maxd) 1 = mind.
 Proof. exists (mkBS 9223372036854775807 1 0), 63902822400000000000. vm_compute. repeat split; discriminate. Qed.
+Example float_bucket_of_max_period_repaired :
+  f_takes (f_new (mkBS 9223372036854775807 1 0) 63902822400000000000) 63902822400000000000 3 = [true; false; false] /\
+  f_dur_from_tokens (f_every maxd) 1 = maxd.
+Proof. vm_compute. split; reflexivity. Qed.
 (* the float fact the "coin" rule leans on for I = 1 ns: a whole missing token means a wait of
    1 ns, so a fresh bucket of 3 per 3 ns admits exactly 3 (and F agrees with X inside the domain) *)
 Example float_whole_token_1ns_refused :
@@ -174,7 +197,7 @@ Proof. vm_compute. split; reflexivity. Qed.
    F24, before 4e20ebf0e - taken > N was refused by the priming allowN and the bucket stayed full
         (credit N*I at the instant of the override) although fresh_tokens is 0. *)
 Theorem fresh_sub_ns_interval_refuted_before_7348cd5bb : exists st t,
-  fresh_cfg st /\ maxd <= t /\ xk (x_new_gen false true st t) = XInf /\
+  fresh_cfg st /\ maxd <= t /\ xk (x_new_gen false false true true st t) = XInf /\
   forall l coin now n, xk l = XInf -> fst (x_allow coin l now n) = true.
 Proof.
   exists (mkBS 5 10 0), 63902822400000000000. split; [unfold fresh_cfg, capmax; cbn; lia|].
@@ -182,10 +205,29 @@ Proof.
 Qed.
 Theorem overtaken_bucket_full_refuted_before_4e20ebf0e : exists st t,
   fresh_cfg st /\ maxd <= t /\ fresh_tokens st = 0 /\
-  pot (x_new_gen true false st t) t = xcap (x_new_gen true false st t) /\ 0 < xcap (x_new_gen true false st t).
+  pot (x_new_gen true true false false st t) t = xcap (x_new_gen true true false false st t) /\ 0 < xcap (x_new_gen true true false false st t).
 Proof.
   exists (mkBS 3000 3 5), 63902822400000000000. split; [unfold fresh_cfg, capmax; cbn; lia|].
   split; [vm_compute; discriminate|]. vm_compute. repeat split.
+Qed.
+
+(* ---- NEGP before e448004d7 (neg := false): a negative period - RATE r 1 PER 300 YEARS as the
+   parser computed it before 474ef3e83 - gave the infinite rate *)
+Theorem negative_period_unlimited_refuted_before_e448004d7 : exists st t,
+  1 <= bs_max st /\ bs_period st < 0 /\ bs_taken st = 0 /\ maxd <= t /\ xk (x_new_gen true false true true st t) = XInf /\
+  forall l coin now n, xk l = XInf -> fst (x_allow coin l now n) = true.
+Proof.
+  exists (mkBS (-8985944073709551616) 1 0), 63902822400000000000. split; [cbn; lia|]. split; [cbn; lia|]. split; [reflexivity|].
+  split; [vm_compute; discriminate|]. split; [reflexivity|]. intros l coin now n K. unfold x_allow. rewrite K. reflexivity.
+Qed.
+(* ---- RTRIP before d872ef03d (ceil := false): 0.9 of a token regained, 9.1 taken of 10, reported
+   as 9: the written-back state holds a whole token the bucket did not have *)
+Theorem round_trip_mints_refuted_before_d872ef03d : exists l t,
+  xk l = XNorm /\ lim_ok l /\ xlast l <= t /\ pot l t < (xburst l - x_taken_gen false l t) * xI l /\
+  x_taken_gen false l t = 9 /\ x_taken l t = 10.
+Proof.
+  exists (mkXL XNorm 10 1000 0 0 true), 900. split; [reflexivity|]. split; [unfold lim_ok, capmax; cbn; lia|].
+  split; [cbn; lia|]. vm_compute. repeat split.
 Qed.
 
 (* ---- non-vacuity: concrete states meeting the hypotheses, computed *)
@@ -216,8 +258,15 @@ Example fresh_sub_ns_and_overtaken_nonvacuous :
   fresh_cfg (mkBS 5 10 0) /\ fresh_cfg (mkBS 5 10 12) /\
   take_seq (set_default sys0 1 (mkBS 5 10 0)) ex_t0 (1, 0)%N (repeat [true] 11) = repeat true 10 ++ [false] /\
   take_seq (set_default sys0 1 (mkBS 5 10 12)) ex_t0 (1, 0)%N [[true]] = [false] /\
-  take_seq (set_default sys0 1 (mkBS 3000 3 5)) ex_t0 (1, 0)%N [[true]] = [false].
-Proof. split; [unfold fresh_cfg, capmax; cbn; lia|]. split; [unfold fresh_cfg, capmax; cbn; lia|]. vm_compute. repeat split. Qed.
+  take_seq (set_default sys0 1 (mkBS 3000 3 5)) ex_t0 (1, 0)%N [[true]] = [false] /\
+  (* 1 per "300 years" as it used to be compiled: exactly one *)
+  fresh_cfg (mkBS (-8985944073709551616) 1 0) /\
+  take_seq (set_default sys0 1 (mkBS (-8985944073709551616) 1 0)) ex_t0 (1, 0)%N [[true]; [true]] = [true; false].
+Proof.
+  split; [unfold fresh_cfg, capmax; cbn; lia|]. split; [unfold fresh_cfg, capmax; cbn; lia|].
+  split; [vm_compute; reflexivity|]. split; [vm_compute; reflexivity|]. split; [vm_compute; reflexivity|].
+  split; [unfold fresh_cfg, capmax; cbn; lia|]. vm_compute; reflexivity.
+Qed.
 
 Example fresh_nonvacuous :
   let st := mkBS 3000 3 1 in
@@ -292,6 +341,9 @@ Print Assumptions request_admitted_iff_all_applicable_limits_admit_strict.
 Print Assumptions non_applicable_limits_untouched.
 Print Assumptions refused_request_consumes_nothing.
 Print Assumptions sub_ns_interval_bucket.
+Print Assumptions round_trip_never_mints.
+Print Assumptions negative_period_unlimited_refuted_before_e448004d7.
+Print Assumptions round_trip_mints_refuted_before_d872ef03d.
 Print Assumptions fresh_sub_ns_interval_refuted_before_7348cd5bb.
 Print Assumptions overtaken_bucket_full_refuted_before_4e20ebf0e.
-Print Assumptions fresh_admits_float_refuted.
+Print Assumptions fresh_admits_float_refuted_before_ca6594b47.
